@@ -364,3 +364,155 @@ def gen_direct(r):
                         d[k2] = v
     return ["update", old, new, prio, dfl]
 
+
+
+# ------------------------------------------------------------------------------ round 3: statement trees
+def mk_scalar_set_args(r):
+    """(arg, kw) writing scalar values at schema leaf paths only (no mapping values, so no record of
+    a re-entered context manager holds a reference to a mapping of the store)"""
+    o = mk_set(r)
+    arg = {k: v for k, v in (o[1] or {}).items() if not isinstance(v, dict)} or None
+    kw = [[k, v] for k, v in o[2] if not isinstance(v, dict)]
+    if arg is None and not kw:
+        p = r.choice(LEAF_PATHS)
+        arg = {".".join(spell(r, k) for k in p): scalar(r)}
+    return arg, kw
+
+
+def mk_tree(r, depth=0, clean=False):
+    """["block", x, arg, kw, body]: with-blocks nested up to three deep; `clean`: the body holds only
+    nested clean blocks and raise statements (then the store must come back exactly)"""
+    x = r.random() < 0.5
+    o = mk_dup_set(r, "set") if r.random() < 0.2 else mk_set(r)
+    body = []
+    for _ in range(r.choice([0, 1, 1, 2, 3])):
+        y = r.random()
+        if depth < 2 and y < 0.4:
+            body.append(mk_tree(r, depth + 1, clean))
+        elif y < 0.55 or clean:
+            body.append(["raise"])
+        elif depth < 2 and y < 0.62:
+            a, k = mk_scalar_set_args(r)
+            body.append(["reuse", a, k, [mk_sop(r) for _ in range(r.choice([0, 1]))], [["raise"]] if r.random() < 0.3 else []])
+        else:
+            body.append(mk_sop(r))
+    return ["block", x, o[1], o[2], body]
+
+
+def gen_nest_seq(r):
+    ops = []
+    if r.random() < 0.8:
+        ops.append(["upd", tree_for_paths(r, r.sample(LEAF_PATHS, r.randint(2, 8)))])
+    for _ in range(r.randint(3, 6)):
+        y = r.random()
+        if y < 0.45:
+            ops.append(mk_tree(r, 0, clean=r.random() < 0.45))
+        elif y < 0.6:
+            a, k = mk_scalar_set_args(r)
+            b1 = [mk_sop(r) if r.random() < 0.6 else ["raise"] for _ in range(r.choice([0, 1, 2]))]
+            b2 = [mk_sop(r) if r.random() < 0.6 else ["raise"] for _ in range(r.choice([0, 0, 1]))]
+            ops.append(["reuse", a, k, b1, b2])
+        else:
+            ops.append(mk_sop(r))
+    return ops
+
+
+# ------------------------------------------------------------------------------ round 3: tables, environment
+T_KEYS = ["alpha", "dtype_real", "old_key", "gone", "device", "viz", "n-iter", "viz.cmap", "sec"]
+
+
+def gen_tables(r):
+    depr = {}
+    for k in r.sample(["old_key", "gone", "alpha", "viz", "dtype_real", "sec", "cmap"], r.choice([0, 1, 2, 3])):
+        depr[k] = r.choice([None, None, "new_key", "renamed", ""])
+    alias = {}
+    for k in r.sample(["device", "dtype_real", "alpha", "cmap", "viz"], r.choice([0, 1, 2])):
+        if k == "device":
+            alias[k] = [[a, b] for a, b in r.sample([["gpu", "cpu"], ["gpu", "cuda:0"], ["fast", "cpu:0"], [0, "cpu"], ["cpu", "tpu"]],
+                                                     r.choice([1, 2]))]
+        else:
+            alias[k] = [[a, b] for a, b in r.sample([["f32", "float32"], [1, "one"], [True, 7], ["a", None], ["b", "a"], [None, 0]],
+                                                     r.choice([1, 2, 3]))]
+    return depr, alias
+
+
+def t_value(r, depth=0):
+    if depth < 2 and r.random() < 0.3:
+        return {k: t_value(r, depth + 1) for k in r.sample(["alpha", "gone", "cmap", "device", "old_key", "k"], r.randint(0, 3))}
+    return r.choice(["f32", 1, True, "a", "b", None, "gpu", "fast", "cpu", 0, "float64", "x"])
+
+
+def gen_tables_case(r):
+    depr, alias = gen_tables(r)
+    y = r.random()
+    if y < 0.35:
+        return ["ckv", depr, alias, r.choice(T_KEYS), t_value(r)]
+    if y < 0.7:
+        arg = {r.choice(T_KEYS): t_value(r) for _ in range(r.randint(0, 3))}
+        kw = []
+        for _ in range(r.choice([0, 1, 2])):
+            k = r.choice(["alpha", "gone", "device", "viz__cmap", "old_key", "sec__gone"])
+            if k not in [x[0] for x in kw]:
+                kw.append([k, t_value(r)])
+        conf = r.choice([{}, {"alpha": 0, "viz": {"cmap": "gray"}}, {"device": "cpu", "sec": {"k": 1}}])
+        return ["set_t", depr, alias, arg if (arg or r.random() < 0.5) else None, kw, conf]
+    old = r.choice([{}, {"alpha": 0, "viz": {"cmap": "gray"}}, {"device": "cpu", "sec": {"k": 1}, "viz": 3}])
+    new = {r.choice(["alpha", "gone", "viz", "sec", "device", "old_key", "dtype_real"]): t_value(r) for _ in range(r.randint(1, 3))}
+    prio = r.choice(["old", "new", "new-defaults"])
+    dfl = r.choice([None, {"alpha": 0, "viz": {"cmap": "gray"}}]) if prio == "new-defaults" else None
+    return ["update_t", depr, alias, old, new, prio, dfl]
+
+
+ENV_VALUES = [("1", 1), ("'s'", "s"), ("None", None), ("True", True), ("plain", "plain"), ("none", None), ("TRUE", True),
+              ("-3", -3), ("''", ""), ("false", False), ("x-y", "x-y")]
+
+
+def gen_env_case(r):
+    """collect_env(env): names with and without the prefix, nested (double underscore) names, names
+    that differ only in case (one dict entry), values that ast.literal_eval / the hard-coded map read"""
+    names = ["QUANTEM_ALPHA", "QUANTEM_alpha", "QUANTEM_VIZ__CMAP", "QUANTEM_VIZ__REAL_SPACE_UNITS", "QUANTEM_A__B__C",
+             "QUANTEM_", "QUANTEM__X", "QUANTEMX", "HOME", "quantem_alpha", "QUANTEM_N-ITER", "QUANTEM_VIZ", "QUANTEM_DEVICE",
+             "XQUANTEM_ALPHA", "QUANTEM_EM_X", "QUANTEM_A_B__C-D"]
+    env = []
+    for n in r.sample(names, r.randint(0, 5)):
+        txt, val = r.choice(ENV_VALUES)
+        env.append([n, txt, val])
+    return ["collect_env", env]
+
+
+def gen_globals_nest_seq(r):
+    """statement trees on the real module globals (keys of the shipped yaml)"""
+    vals = ["float32", "float64", "int32", 1, 2, "gray", "A", "nm", False]
+
+    def args():
+        arg = {}
+        for _ in range(r.choice([1, 1, 2])):
+            arg[".".join(r.choice(G_LEAVES))] = r.choice(vals)
+        return arg
+
+    def tree(depth=0):
+        body = []
+        for _ in range(r.choice([0, 1, 2])):
+            y = r.random()
+            if depth < 2 and y < 0.45:
+                body.append(tree(depth + 1))
+            elif y < 0.65:
+                body.append(["raise"])
+            elif y < 0.8:
+                body.append(["refresh", []])
+            else:
+                body.append(["set", args(), []])
+        return ["block", r.random() < 0.5, args(), [], body]
+
+    ops = []
+    for _ in range(r.randint(3, 5)):
+        y = r.random()
+        if y < 0.5:
+            ops.append(tree())
+        elif y < 0.65:
+            ops.append(["reuse", args(), [], [["raise"]] if r.random() < 0.5 else [], []])
+        elif y < 0.85:
+            ops.append(["set", args(), []])
+        else:
+            ops.append(["refresh", []])
+    return ops
